@@ -279,6 +279,9 @@ def clean_old_pch(keep_hash=None):
 # Probe engine: accept/reject verdicts for one-line programs
 
 
+STATS = {"batches": 0, "singles": 0}
+
+
 class Probe:
     __slots__ = ("pid", "code", "expect", "meta", "verdict", "diag")
 
@@ -322,8 +325,21 @@ def run_probes(cfg, probes, wd, tag, preamble="", flags=(), batch=48):
     rej = [p for p in probes if p.expect == "reject"]
     jobs = []
     for kind, lst in (("a", acc), ("r", rej)):
-        for i in range(0, len(lst), batch):
-            jobs.append((kind, i // batch, lst[i:i + batch]))
+        # Probes carrying the same meta["dedup"] key share template instantiations whose diagnostics a
+        # compiler reports only once per TU: never put two of them into one batch.
+        batches, nxt = [], {}
+        for p in lst:
+            k = p.meta.get("dedup") if kind == "r" else None
+            i = nxt.get(k, 0) if k is not None else (len(batches) - 1 if batches and len(batches[-1]) < batch else len(batches))
+            while i < len(batches) and len(batches[i]) >= batch:
+                i += 1
+            if i == len(batches):
+                batches.append([])
+            batches[i].append(p)
+            if k is not None:
+                nxt[k] = i + 1
+        for i, b in enumerate(batches):
+            jobs.append((kind, i, b))
     singles = []
 
     def do(job):
@@ -357,13 +373,17 @@ def run_probes(cfg, probes, wd, tag, preamble="", flags=(), batch=48):
             else:
                 res[p.pid] = (v, d)
 
+    single_no = {id(p): i for i, p in enumerate(singles)}
+
     def single(p):
-        src = os.path.join(wd, "%s_%s_s_%s.cc" % (tag, cfg.name, re.sub(r"\W", "_", str(p.pid))))
+        src = os.path.join(wd, "%s_%s_s%d.cc" % (tag, cfg.name, single_no[id(p)]))
         _emit_batch(src, [p], preamble)
         rc, err = syntax_check(cfg, src, flags)
         return p, ("accept" if rc == 0 else "reject"), _first_error(err), src
 
     out = {}
+    STATS["batches"] += len(jobs)
+    STATS["singles"] += len(singles)
     for p, v, d, src in pmap(single, singles):
         res[p.pid] = (v, d)
         out[p.pid] = src
